@@ -11,6 +11,7 @@ import (
 	"verif/hapi"
 	"verif/vrt"
 	"verif/vrt/vnet"
+	"verif/vrt/vos"
 	"verif/wire"
 )
 
@@ -19,7 +20,7 @@ const tfAck = 0x1000
 type c11Case struct {
 	Followers int      `json:"f"`
 	Mode      uint     `json:"m"`     // 0 all (mixed), 1 majority, 2 all
-	Fates     []string `json:"fates"` // per follower: deliver | held | late | cut | negative (the follower cannot apply the record and says so)
+	Fates     []string `json:"fates"` // per follower: deliver | held | late | cut | negative (the follower cannot apply the record and says so) | disk-error (the follower cannot write the record to its own log)
 	Interf    string   `json:"i"`     // none | duplicate | unlock | waiter-behind | demote
 	Value     bool     `json:"v"`
 	FromQueue bool     `json:"q"` // the ack lock is granted from the wait queue
@@ -38,7 +39,7 @@ func (c c11Case) required() int {
 
 func c11Cases(quick bool) []EnumCase {
 	var out []EnumCase
-	fates := []string{"deliver", "held", "late", "cut", "negative"}
+	fates := []string{"deliver", "held", "late", "cut", "negative", "disk-error"}
 	var rec func(f int, cur []string, emit func([]string))
 	rec = func(f int, cur []string, emit func([]string)) {
 		if len(cur) == f {
@@ -136,7 +137,24 @@ func evalC11(c *Ctx, cs EnumCase) EnumResult {
 				return
 			}
 			if f != "deliver" {
-				l.AtoB.Hold = true // "negative": the refusal travels like a late acknowledgement
+				l.AtoB.Hold = true // "negative" / "disk-error": the refusal travels like a late acknowledgement
+			}
+		}
+		// followers whose disk fails from now on: every write to their data directory is refused
+		badDisk := map[string]bool{}
+		for i, f := range k.Fates {
+			if f == "disk-error" {
+				badDisk[fmt.Sprintf("/n%d/", i+1)] = true
+			}
+		}
+		if len(badDisk) > 0 {
+			vos.Cur().ShortWrite = func(p vos.FSPoint, n int) int {
+				for d := range badDisk {
+					if strings.Contains(p.Path, d) {
+						return 0
+					}
+				}
+				return n
 			}
 		}
 		t0 := vrt.Elapsed()
@@ -175,7 +193,7 @@ func evalC11(c *Ctx, cs EnumCase) EnumResult {
 		}
 		vrt.AdvanceTo(t0 + 1500*ms)
 		for i, f := range k.Fates {
-			if f == "late" || f == "negative" {
+			if f == "late" || f == "negative" || f == "disk-error" {
 				repl[i+1].AtoB.Hold = false
 			}
 		}
@@ -231,7 +249,7 @@ func evalC11(c *Ctx, cs EnumCase) EnumResult {
 		// so both outcomes are accepted there
 		either := k.Interf == "demote" && waitingAt200 && expectOK
 		for _, f := range k.Fates {
-			if f == "negative" && expectOK {
+			if (f == "negative" || f == "disk-error") && expectOK {
 				either = true // a refusal may fail the request even where the others would make a quorum
 			}
 		}
